@@ -2,10 +2,11 @@
 
 proof      : coq/theories/Properties/C03.v  (model: Model/Back.v, proofs: Proofs/Back.v)
 tie T-dump : harness/cmd/c03dump runs the REAL backtrace.Analyze, dumps the linked graph it walked, the entry points,
-             the reported traces and the run's event log (every visit(arg) and every addNext push, taken from the
-             analysis' own trace log, so Go's map iteration order is observed).  The extracted model
-             (build/bin/c03model) replays the run on the dumped graph with the observed order: its push sequence must
-             be identical to the implementation's, and so must the trace sets per entry argument.
+             the reported traces and the run's event log (every visit(arg), every addNext push and every popped node
+             with its call and closure trace, taken from the analysis' own trace log, so Go's map iteration order is
+             observed).  The extracted model (build/bin/c03model) replays the run on the dumped graph with the
+             observed order: its push sequence and the contexts of its popped nodes must be identical to the
+             implementation's, and so must the trace sets per entry argument.
 tie T-cert : the extracted verified checker trace_wfb (Theorem trace_wf) is run on every trace the implementation reported.
 spec       : the ideal successor relation of the model (tuple filter and seen-pruning off) is evaluated on every run;
              nodes it reaches that lie on no reported trace are the candidates for a missed flow (evidence only).
@@ -373,7 +374,7 @@ def parse_sections(path):
         elif t == "X":
             cur["X"].append(l[2:])
         elif t == "Q":
-            cur["Q"].append((p[1], p[2], p[3]))
+            cur["Q"].append((p[1], p[2], p[3], p[4] if len(p) > 4 else "noctx"))
         elif t == "R":
             cur["R"][p[1]] = p[2:]
         elif t == "I":
@@ -469,12 +470,16 @@ def run(chk):
             stats["runs_without_event_log"] += 1
             chk.notes.append("event log unavailable for %s (%s): exact replay skipped" % (isec["dir"], isec["mode"]))
             return probs
-        for (a, o, sy) in msec["Q"]:
+        for (a, o, sy, cx) in msec["Q"]:
             stats["visits_replayed"] += 1
             if sy != "sync":
                 probs.append("visit of arg %s: push sequences differ (%s, outcome %s)" % (a, sy, o))
+            elif cx.startswith("CTXDIFF"):
+                probs.append("visit of arg %s: call/closure traces of the popped nodes differ (%s)" % (a, cx))
             elif o != "done":
                 stats["visits_not_done"] += 1
+            if cx == "ctx":
+                stats["visits_contexts_equal"] += 1
         stats["push_events"] += isec["nA"]
         if msec.get("variant") and msec["variant"] != "fix_tuple=0 fix_ctrace=0":
             stats["runs_tied_to_repaired_model"] += 1
@@ -500,7 +505,6 @@ def run(chk):
         for (a, verdict, tr) in msec["Wbad"]:
             if verdict != "BAD":
                 continue
-            found_concrete = True
             key = "trace-not-wf:%s" % os.path.basename(d)
             rd = chk.replay_dir(key)
             with open(os.path.join(rd, "replay.txt"), "w") as f:
@@ -512,7 +516,8 @@ def run(chk):
             for fn in ("main.go", "config.yaml", "go.mod"):
                 if os.path.exists(os.path.join(d, fn)) and d.startswith(work):
                     shutil.copy(os.path.join(d, fn), rd)
-            chk.violation(key, "reported trace is not well-formed in %s (%s)" % (d, isec["mode"]), rd)
+            if chk.violation(key, "reported trace is not well-formed in %s (%s)" % (d, isec["mode"]), rd):
+                found_concrete = True
 
     def spec_stats(isec, msec):
         for a, (n, cap, ideal) in msec["I"].items():
@@ -568,7 +573,6 @@ def run(chk):
                     shape = dict((i, n) for i, n, _ in scen).get(int(m.group(1)))
                 if shape is None and len(scen) == 2:
                     shape = scen[1][1]
-                found_concrete = True
                 key = "panic:%s" % (shape or "unknown")
                 rd = chk.replay_dir(key + mode)
                 for fn in ("main.go", "config.yaml", "go.mod"):
@@ -577,7 +581,8 @@ def run(chk):
                     f.write("backtrace.Analyze panics on this program (%s): %s\nno trace is reported for any backtrace point, although "
                             "natively %d origin markers reach their backtrace points.\nre-run: cd <this dir> && argot backtrace -config config.yaml .\n"
                             % (mode, panics[0], len(hitset)))
-                chk.violation(key, "analysis panics (%s): %s" % (mode, panics[0][:120]), rd)
+                if chk.violation(key, "analysis panics (%s): %s" % (mode, panics[0][:120]), rd):
+                    found_concrete = True
                 continue
             probs = tie(isec, msec)
             for pr in probs:
@@ -614,7 +619,6 @@ def run(chk):
                     if on:
                         stats["native_flows_on_a_trace"] += 1
                         continue
-                    found_concrete = True
                     key = MISS_KEYS.get(name, "miss:%s" % name)
                     rd = chk.replay_dir(key + mode)
                     for fn in ("main.go", "config.yaml", "go.mod"):
@@ -627,8 +631,9 @@ def run(chk):
                                 "re-run: cd <this dir> && go run . | grep 'HIT %d ' ; argot backtrace -config config.yaml .   "
                                 "(or build/bin/c03dump -both <dir> | build/bin/c03model)\n"
                                 % (i, name, mode, mk, hj, i, pat, entry.get(i, {}), fwd, i))
-                    chk.violation(key, "shape %s (%s): origin %s reaches bt%d natively, no reported trace contains it"
-                                  % (name, mode, mk, i), rd)
+                    if chk.violation(key, "shape %s (%s): origin %s reaches bt%d natively, no reported trace contains it"
+                                     % (name, mode, mk, i), rd):
+                        found_concrete = True
             # forward / backward agreement (context-insensitive): (origin call, bt) pairs
             back_pairs = set()
             for c, al in isec["E"]:
